@@ -314,6 +314,22 @@ def impl_extract_pages(data: bytes, sel, maxpages: int) -> str:
         return "EXC:" + type(e).__name__
 
 
+def impl_xml_boxes(data: bytes, sel, maxpages: int, rotation: int) -> List[str]:
+    """extract_text_to_fp(output_type='xml', rotation=…): the bbox attribute of every <page> element."""
+    import re
+    from pdfminer.high_level import extract_text_to_fp
+    out = io.BytesIO()
+    try:
+        extract_text_to_fp(io.BytesIO(data), out, output_type="xml", laparams=None, maxpages=maxpages,
+                           page_numbers=sel, rotation=rotation)
+    except Exception as e:  # noqa: BLE001
+        return ["EXC:" + type(e).__name__]
+    res = []
+    for m in re.finditer(rb'<page id="[^"]*" bbox="([^"]*)"', out.getvalue()):
+        res.append(box_txt([F(x.decode()) for x in m.group(1).split(b",")]))
+    return res
+
+
 # ------------------------------------------------------------------ executable specification (Python twin of Spec/PageTree.lean)
 
 class SpecError(Exception):
@@ -953,8 +969,9 @@ def doc_tags(doc, extra=None) -> Dict[str, Any]:
 class DocCheck:
     """Everything observed for one document; collects driver request lines for a later batch."""
 
-    def __init__(self, ctx: C.Ctx, doc, sels=None):
+    def __init__(self, ctx: C.Ctx, doc, sels=None, rotation=None):
         self.ctx = ctx
+        self.rotation = rotation
         self.doc = doc
         self.in_domain = doc.get("kind") in ("tree", "graph")
         self.data = build(doc)
@@ -962,11 +979,13 @@ class DocCheck:
         self.requests: List[Tuple[str, str, str, Any]] = []   # (line, impl reply, op, input)
         self.sels = sels
 
-    def fail(self, what, expected, got, tags=None, sel=None):
+    def fail(self, what, expected, got, tags=None, sel=None, rotation=None):
         if self.first_fail is None:
             inp = {"doc": self.doc}
             if sel is not None:
                 inp["selection"] = {"page_numbers": sel[0], "maxpages": sel[1]}
+            if rotation is not None:
+                inp["rotation"] = rotation
             self.first_fail = C.Failure(what, inp, expected, got, doc_tags(self.doc, tags))
 
     def req(self, line, impl, op, inp=None):
@@ -1040,6 +1059,28 @@ class DocCheck:
                         self.fail("extract_text(page_numbers, maxpages) does not write exactly the selected pages "
                                   "below the limit, in order", exp_txt, txt,
                                   {"op": "select", "via": "extract_text", "beyond_limit": beyond}, sel=(sel, mp))
+                if idx == 2 or (idx == 0 and (n <= 3 or self.rotation is not None)):
+                    rotation = self.rotation if self.rotation is not None else \
+                        rng.choice([0, 90, 180, 270, -90, 450, 540, 45])
+                    boxes = impl_xml_boxes(data, container, mp, rotation)
+                    self.ctx.branch(f"rotation-option:{rotation}")
+                    if len(boxes) != len(exp_sel) and self.in_domain:
+                        self.fail("extract_text_to_fp(page_numbers, maxpages, rotation) does not write exactly the "
+                                  "selected pages below the limit", len(exp_sel), boxes,
+                                  {"op": "select", "via": "extract_text_to_fp", "beyond_limit": beyond}, sel=(sel, mp),
+                                  rotation=rotation)
+                    for line, got_box in zip(exp_sel, boxes):
+                        pid, rot, mb, cb, marker = parse_page_line(line)
+                        self.req(f"xmlbox {rot} {rotation} {box_txt(mb)}", got_box, "xmlbox",
+                                 {"rotate": rot, "rotation": rotation, "mediabox": [str(x) for x in mb]})
+                        tot = (rot + rotation) % 360
+                        if self.in_domain and tot % 90 == 0:
+                            w_, h_ = mb[2] - mb[0], mb[3] - mb[1]
+                            want_box = box_txt((0, 0, w_, h_) if tot % 180 == 0 else (0, 0, h_, w_))
+                            if want_box != got_box:
+                                self.fail("extract_text_to_fp(rotation=): the page is not turned by Rotate + rotation",
+                                          want_box, got_box, {"op": "rotation-option", "rotate": rot,
+                                                              "rotation": rotation}, sel=(sel, mp), rotation=rotation)
                 if idx == 1:
                     ep = impl_extract_pages(data, container, mp)
                     exp_ep = ";".join(page_letter(s) for s in exp_sel) or "-"
@@ -1087,6 +1128,7 @@ def shrink_doc(ctx: C.Ctx, chk: DocCheck, rng) -> C.Failure:
     doc = chk.doc
     sel = f0.input.get("selection")
     sels = [(sel["page_numbers"], sel["maxpages"])] if sel else [(None, 0)]
+    rotation = f0.input.get("rotation")
     items: List[Tuple[str, int, Any]] = []
     for k, o in doc["objs"]:
         if o[0] != "D":
@@ -1118,7 +1160,7 @@ def shrink_doc(ctx: C.Ctx, chk: DocCheck, rng) -> C.Failure:
     def still(keep):
         d = make(keep)
         try:
-            c2 = DocCheck(_Null(), d, sels)   # type: ignore[arg-type]
+            c2 = DocCheck(_Null(), d, sels, rotation)   # type: ignore[arg-type]
             c2.run(rng)
         except Exception:  # noqa: BLE001
             return False
@@ -1145,7 +1187,7 @@ def shrink_doc(ctx: C.Ctx, chk: DocCheck, rng) -> C.Failure:
             mark(d["catalog"])
             d["objs"] = [[k, o] for k, o in d["objs"] if int(k) in reach]
             d["glyph"] = {k: v for k, v in d.get("glyph", {}).items() if int(k) in reach}
-            c2 = DocCheck(_Null(), d, sels)   # type: ignore[arg-type]
+            c2 = DocCheck(_Null(), d, sels, rotation)   # type: ignore[arg-type]
             c2.run(rng)
             if c2.first_fail is not None and c2.first_fail.tags.get("op") == f0.tags.get("op"):
                 return c2.first_fail
@@ -1181,8 +1223,8 @@ def flush(ctx: C.Ctx, checks: List[DocCheck]) -> None:
                 ctx.disagree(op, inp if inp is not None else line, impl, m)
 
 
-def check_doc(ctx: C.Ctx, doc, pending: List[DocCheck], sels=None) -> DocCheck:
-    chk = DocCheck(ctx, doc, sels)
+def check_doc(ctx: C.Ctx, doc, pending: List[DocCheck], sels=None, rotation=None) -> DocCheck:
+    chk = DocCheck(ctx, doc, sels, rotation)
     chk.run(ctx.rng)
     n = len(chk.items)
     objs = objs_of(doc)
@@ -1360,7 +1402,7 @@ def replay(ctx: C.Ctx, doc, from_corpus: bool = False, pending=None) -> None:
     if "doc" in inp:
         sel = inp.get("selection")
         sels = [(sel["page_numbers"], sel["maxpages"])] if sel else None
-        check_doc(ctx, inp["doc"], pending, sels=sels)
+        check_doc(ctx, inp["doc"], pending, sels=sels, rotation=inp.get("rotation"))
     elif "render" in inp:
         r = inp["render"]
         run_render_one(ctx, int(r["rotate"]), tuple(F(x) for x in r["mediabox"]), tuple(F(x) for x in r["pt"]))
